@@ -209,7 +209,7 @@ def anyhow_not(I, a, n):
     return z3.Not(a[0]) if is_sym(a[0]) else (not a[0])
 
 
-@model(r"^std::path::Path::to_string_lossy$")
+@model(r"^std::path::Path::to_string_lossy$|^std::ffi::OsStr::to_string_lossy$")
 def path_to_string_lossy(I, a, n):
     return EnumV("Cow", 0, [path_text(a[0])])
 
